@@ -188,17 +188,24 @@ Section Lossless.
     induction 1 as [|[g key omit k] t Hf Ht IH].
     - exists [], []. simpl. auto.
     - destruct IH as (vs & em & Hd & He & Hn). destruct Hf as (oa & Hf).
-      unfold field_out in Hf. simpl in Hf.
+      pose proof Hf as Hf0.
+      unfold field_out in Hf. cbn [fd_kind fd_key fd_omit] in Hf.
       apply bind_ok in Hf. destruct Hf as (v & Hv & Hf). apply bind_ok in Hf. destruct Hf as (oe & Hoe & Hf).
-      unfold emit. simpl. unfold field_out at 1. simpl. rewrite Hv. simpl. rewrite Hoe. simpl.
-      exists (v :: vs). unfold enc_field in Hoe. simpl in Hoe.
-      simpl. rewrite Hv, Hd. simpl. rewrite He. simpl.
+      assert (Hemit : emit m (FD g key omit k :: t) =
+                      match oa with Some a => [(key, a)] | None => [] end ++ emit m t).
+      { unfold emit. cbn [flat_map]. rewrite Hf0. destruct oa; reflexivity. }
+      assert (Hdec : dec_fields O cdec (FD g key omit k :: t) m = Ok (v :: vs)).
+      { cbn [dec_fields]. rewrite Hv. cbn [bind]. rewrite Hd. reflexivity. }
+      exists (v :: vs). rewrite Hdec, Hemit.
+      cbn [enc_fields]. rewrite He. cbn [bind].
+      unfold enc_field in Hoe. cbn [fd_kind fd_key fd_omit] in Hoe.
       destruct (omit && is_empty v).
-      + inversion Hoe. subst oe. exists em. auto.
+      + inversion Hoe. subst oe. inversion Hf. subst oa. exists em. simpl. auto.
       + apply bind_ok in Hoe. destruct Hoe as (e & Hee & Hoe). inversion Hoe. subst oe.
-        rewrite Hee. simpl. destruct (norm renum e) as [a|] eqn:Ea; [|discriminate].
+        rewrite Hee. cbn [bind]. destruct (norm renum e) as [a|] eqn:Ea; [|discriminate].
+        inversion Hf. subst oa.
         exists ((key, e) :: em). split; [reflexivity|]. split; [reflexivity|].
-        simpl. rewrite Ea. fold (emit m t). rewrite Hn. reflexivity.
+        simpl. rewrite Ea, Hn. reflexivity.
   Qed.
 
   Lemma jget_emit_notin m fs k : ~ In k (field_keys fs) -> jget k (emit m fs) = None.
@@ -277,11 +284,11 @@ Section Lossless.
     - (* KString *) inversion Hs; subst. exists (VStr s), (JStr s), (JStr s). repeat split; try reflexivity.
       simpl. intros Hne. destruct (String.eqb s "") eqn:E; [apply String.eqb_eq in E; subst; tauto|reflexivity].
     - (* KPtrString *) inversion Hs; subst. exists (VOptStr (Some s)), (JStr s), (JStr s). repeat split; reflexivity.
-    - (* KPtrInt *) inversion Hs; subst. exists (VOptInt (Some z)), (JNum (NInt z)), (JNum n).
-      simpl. rewrite H0, H1. repeat split; reflexivity.
+    - (* KPtrInt *) inversion Hs as [| |z n Hz Hr| | | | | | | | |]; subst. exists (VOptInt (Some z)), (JNum (NInt z)), (JNum n).
+      simpl. rewrite Hz, Hr. repeat split; reflexivity.
     - (* KPtrBool *) inversion Hs; subst. exists (VOptBool (Some b)), (JBool b), (JBool b). repeat split; reflexivity.
-    - (* KUint64 *) inversion Hs; subst. exists (VUint z), (JNum (NInt z)), (JNum n).
-      simpl. rewrite H0, H1. repeat split; try reflexivity.
+    - (* KUint64 *) inversion Hs as [| | | |z n Hz Hr| | | | | | |]; subst. exists (VUint z), (JNum (NInt z)), (JNum n).
+      simpl. rewrite Hz, Hr. repeat split; try reflexivity.
       intros Hne. destruct (Z.eqb z 0) eqn:E; [apply Z.eqb_eq in E; subst; tauto|reflexivity].
     - (* KStruct *) inversion Hs as [| | | | | |fs' m Hnd Hincl Hf| | | | |]; subst.
       simpl in Hp. apply andb_true_iff in Hp. destruct Hp as [Hpf Hfk].
@@ -324,9 +331,9 @@ Section Lossless.
         - rewrite jget_emit_notin by assumption. rewrite jget_notin; [reflexivity|]. intros Hin. apply Hk, Hincl, Hin. }
       destruct Hnm as (nm & Hnm & Hsort).
       exists (VStruct vs), (JObj em), (JObj (msort nm)).
-      rewrite decode_struct_obj, Hd. simpl. split; [reflexivity|].
-      rewrite encode_struct_eq, He. simpl. split; [reflexivity|].
-      rewrite !norm_obj, Hn, Hnm, Hsort. repeat split; reflexivity.
+      rewrite decode_struct_obj, Hd. cbn [bind]. split; [reflexivity|].
+      rewrite encode_struct_eq, He. cbn [bind]. split; [reflexivity|].
+      rewrite !norm_obj, Hn, Hnm, Hsort. split; [reflexivity|]. split; [reflexivity|]. intros _. reflexivity.
     - (* KPtrStruct *) inversion Hs as [| | | | | | |fs' m Hnd Hincl Hf| | | |]; subst.
       simpl in Hp. apply andb_true_iff in Hp. destruct Hp as [Hpf Hfk].
       apply plain_struct_fields in Hpf. unfold fold_keys_nodup in Hfk. apply str_nodup_NoDup in Hfk.
@@ -367,34 +374,203 @@ Section Lossless.
         - rewrite jget_emit_notin by assumption. rewrite jget_notin; [reflexivity|]. intros Hin. apply Hk, Hincl, Hin. }
       destruct Hnm as (nm & Hnm & Hsort).
       exists (VOptStruct (Some vs)), (JObj em), (JObj (msort nm)).
-      rewrite decode_ptrstruct_obj, Hd. simpl. split; [reflexivity|].
-      rewrite encode_ptrstruct_eq, He. simpl. split; [reflexivity|].
-      rewrite !norm_obj, Hn, Hnm, Hsort. repeat split; reflexivity.
+      rewrite decode_ptrstruct_obj, Hd. cbn [bind]. split; [reflexivity|].
+      rewrite encode_ptrstruct_eq, He. cbn [bind]. split; [reflexivity|].
+      rewrite !norm_obj, Hn, Hnm, Hsort. split; [reflexivity|]. split; [reflexivity|]. intros _. reflexivity.
     - (* KSliceString *) inversion Hs; subst. exists (VStrs (Some l)), (JArr (map JStr l)), (JArr (map JStr l)).
-      simpl decode_val. rewrite map_res_strs. simpl. split; [reflexivity|]. split; [reflexivity|].
-      rewrite norm_arr. unfold norm_list. rewrite map_opt_norm_strs. repeat split; try reflexivity.
+      split. { simpl decode_val. rewrite map_res_strs. reflexivity. }
+      split; [reflexivity|].
+      rewrite norm_arr. unfold norm_list. rewrite map_opt_norm_strs.
+      split; [reflexivity|]. split; [reflexivity|].
       intros Hne. destruct l; [simpl in Hne; tauto|reflexivity].
-    - (* KAny *) inversion Hs; subst. exists (VAny (Some a)), a, a.
+    - (* KAny *) inversion Hs as [| | | | | | | | |j' a Hnn Hnorm| |]; subst. exists (VAny (Some a)), a, a.
       assert (Hd : decode_val O cdec KAny j = Ok (VAny (Some a))).
-      { simpl. destruct j; try tauto; unfold dec_any; rewrite H0; reflexivity. }
-      rewrite Hd. repeat split; try reflexivity; try assumption.
-      eapply norm_idem; eauto.
-    - (* KMapAny *) inversion Hs; subst.
-      pose proof H0 as Hn. rewrite norm_obj in Hn. destruct (norm_members renum m) as [nm|] eqn:Enm; [|discriminate].
+      { simpl. destruct j; try tauto; unfold dec_any; rewrite Hnorm; reflexivity. }
+      rewrite Hd. split; [reflexivity|]. split; [reflexivity|].
+      split; [eapply norm_idem; eauto|]. split; [assumption|]. intros _. reflexivity.
+    - (* KMapAny *) inversion Hs as [| | | | | | | | | |m a Hnorm|]; subst.
+      pose proof Hnorm as Hn. rewrite norm_obj in Hn. destruct (norm_members renum m) as [nm|] eqn:Enm; [|discriminate].
       inversion Hn. subst a.
       exists (VMap (Some (msort nm))), (JObj (msort nm)), (JObj (msort nm)).
-      simpl decode_val. unfold dec_any. rewrite H0. simpl. repeat split; try reflexivity; try assumption.
-      + eapply norm_idem; eauto.
-      + intros Hne. simpl. destruct (msort nm) eqn:Ems; [|reflexivity].
-        apply msort_nil_inv in Ems. subst nm. destruct m as [|[k v] t]; [simpl in Hne; tauto|].
-        simpl in Enm. destruct (norm renum v); [|discriminate]. destruct (norm_members renum t); discriminate.
-    - (* KSliceAny *) inversion Hs; subst.
-      pose proof H0 as Hn. rewrite norm_arr in Hn. destruct (norm_list renum l) as [nl|] eqn:Enl; [|discriminate].
+      split. { simpl decode_val. unfold dec_any. rewrite Hnorm. reflexivity. }
+      split; [reflexivity|]. split; [eapply norm_idem; eauto|]. split; [assumption|].
+      intros Hne. simpl. destruct (msort nm) eqn:Ems; [|reflexivity].
+      apply msort_nil_inv in Ems. subst nm. destruct m as [|[k v] t]; [simpl in Hne; tauto|].
+      simpl in Enm. destruct (norm renum v); [|discriminate]. destruct (norm_members renum t); discriminate.
+    - (* KSliceAny *) inversion Hs as [| | | | | | | | | | |l a Hnorm]; subst.
+      pose proof Hnorm as Hn. rewrite norm_arr in Hn. destruct (norm_list renum l) as [nl|] eqn:Enl; [|discriminate].
       inversion Hn. subst a.
       exists (VAnys (Some nl)), (JArr nl), (JArr nl).
-      simpl decode_val. unfold dec_any. rewrite H0. simpl. repeat split; try reflexivity; try assumption.
-      + eapply norm_idem; eauto.
-      + intros Hne. simpl. destruct nl; [|reflexivity]. destruct l as [|x t]; [simpl in Hne; tauto|].
-        unfold norm_list in Enl. simpl in Enl. destruct (norm renum x); [|discriminate]. destruct (map_opt (norm renum) t); discriminate.
+      split. { simpl decode_val. unfold dec_any. rewrite Hnorm. reflexivity. }
+      split; [reflexivity|]. split; [eapply norm_idem; eauto|]. split; [assumption|].
+      intros Hne. simpl. destruct nl; [|reflexivity]. destruct l as [|x t]; [simpl in Hne; tauto|].
+      unfold norm_list in Enl. simpl in Enl. destruct (norm renum x); [|discriminate]. destruct (map_opt (norm renum) t); discriminate.
+  Qed.
+
+  (* ================================================================ *)
+  (* The whole document: fields whose key is in D are deleted before merklizing *)
+  Variable D : list string.
+
+  (* the document handed to the merklizer (Model.merklize_doc, for any cenc) *)
+  Definition mdoc (fs : list fdesc) (vs : list gval) : res json :=
+    b <- encode_val cenc (KStruct fs) (VStruct vs) ;;
+    m <- as_map O b ;;
+    Ok (JObj (msort (jremove_all D m))).
+
+  (* side condition on the descriptors (a boolean, evaluated on the generated list):
+     names distinct up to case; every field that is not deleted is of a lossless kind *)
+  Definition top_ok (fs : list fdesc) : bool :=
+    fold_keys_nodup fs &&
+    forallb (fun f => str_mem (fd_key f) D || plain (fd_kind f) || is_time (fd_kind f)) fs.
+
+  (* the supported shape of one top-level member *)
+  Definition top_field_ok (m : members) (f : fdesc) : Prop :=
+    if str_mem (fd_key f) D
+    then (* deleted member: it only has to be accepted by the codec *)
+         exists oa, field_out m f = Ok oa
+    else (jget (fd_key f) m = None /\ fd_omit f = true /\ is_empty (zero (fd_kind f)) = true) \/
+         (jget (fd_key f) m = Some JNull /\ fd_omit f = true /\ nullable (fd_kind f) = true) \/
+         (exists v, jget (fd_key f) m = Some v /\ shape (fd_kind f) v /\
+                    (fd_omit f = true -> nonempty (fd_kind f) v)).
+
+  Definition top_shape (fs : list fdesc) (j : json) : Prop :=
+    exists m, j = JObj m /\ NoDup (keys m) /\ incl (keys m) (field_keys fs) /\
+              Forall (top_field_ok m) fs /\
+              (forall k v, In k D -> jget k m = Some v -> exists a, norm renum v = Some a).
+
+  Definition time_key (fs : list fdesc) (k : string) : bool :=
+    existsb (fun f => String.eqb (fd_key f) k && is_time (fd_kind f)) fs.
+
+  (* same instant, same zone: two spellings of one time.Time *)
+  Definition same_time (x y : option json) : Prop :=
+    (x = None /\ y = None) \/
+    exists s s' t, x = Some (JStr s') /\ y = Some (JStr s) /\ parse_time s = Some t /\ parse_time s' = Some t.
+
+  Lemma nullable_null k : nullable k = true ->
+    decode_val O cdec k JNull = Ok (zero k) /\ is_empty (zero k) = true.
+  Proof. destruct k; intros H; try discriminate H; split; reflexivity. Qed.
+
+  Lemma jget_filter_keep k m : jget k (filter (keep_out D) m) = if str_mem k D then None else jget k m.
+  Proof.
+    induction m as [|[a v] t IH]; simpl; [destruct (str_mem k D); reflexivity|].
+    unfold keep_out at 1. simpl. destruct (str_mem a D) eqn:Ea; simpl.
+    - rewrite IH. destruct (String.eqb a k) eqn:E; [|reflexivity].
+      apply String.eqb_eq in E. subst. rewrite Ea. reflexivity.
+    - destruct (String.eqb a k) eqn:E; [|assumption].
+      apply String.eqb_eq in E. subst. rewrite Ea. reflexivity.
+  Qed.
+
+  Lemma nodup_filter_keys (p : string * json -> bool) m : NoDup (keys m) -> NoDup (keys (filter p m)).
+  Proof.
+    induction m as [|[a v] t IH]; simpl; intros H; [constructor|].
+    inversion H as [|? ? Hn Hnd]; subst. destruct (p (a, v)); simpl; [constructor|]; auto.
+    intros Hin. apply Hn. clear - Hin. induction t as [|[b w] t IHt]; simpl in *; [tauto|].
+    destruct (p (b, w)); simpl in *; tauto.
+  Qed.
+
+  Lemma shape_not_null k v : shape k v -> v <> JNull.
+  Proof. intros H; inversion H; subst; try discriminate; assumption. Qed.
+
+  Theorem top_lossless fs j :
+    top_ok fs = true -> top_shape fs j ->
+    exists vs d r,
+      decode_struct O cdec fs j = Ok vs /\
+      mdoc fs vs = Ok (JObj d) /\
+      reference_doc O D j = Ok (JObj r) /\
+      forall k, if time_key fs k then same_time (jget_nn k d) (jget_nn k r)
+                else jget_nn k d = jget_nn k r.
+  Proof.
+    intros Hok (m & -> & Hnd & Hincl & Hf & Hdel).
+    unfold top_ok in Hok. apply andb_true_iff in Hok. destruct Hok as [Hfk Hkinds].
+    unfold fold_keys_nodup in Hfk. apply str_nodup_NoDup in Hfk.
+    assert (NDfk : NoDup (field_keys fs)) by (eapply NoDup_map_inv; eauto).
+    rewrite forallb_forall in Hkinds.
+    (* per field: what is emitted, related to the member of the original *)
+    assert (Hall : Forall (fun f => exists oa, field_out m f = Ok oa /\
+               (str_mem (fd_key f) D = false ->
+                match jget (fd_key f) m with
+                | None => oa = None
+                | Some v => (v = JNull /\ oa = None) \/
+                            (is_time (fd_kind f) = false /\ exists a, oa = Some a /\ norm renum v = Some a) \/
+                            (is_time (fd_kind f) = true /\ exists s s' t, v = JStr s /\ oa = Some (JStr s') /\
+                                parse_time s = Some t /\ parse_time s' = Some t)
+                end)) fs).
+    { rewrite Forall_forall in *. intros f Hin. specialize (Hf f Hin). specialize (Hkinds f Hin).
+      assert (Hk : In (fd_key f) (field_keys fs)) by (apply in_map; assumption).
+      unfold top_field_ok in Hf. destruct (str_mem (fd_key f) D) eqn:Ed.
+      - destruct Hf as (oa & Hoa). exists oa. split; [assumption|discriminate].
+      - simpl in Hkinds. destruct Hf as [(G & Ho & Hz)|[(G & Ho & Hnl)|(v & G & Hsh & Hne)]]; rewrite G.
+        + exists None. split; [eapply field_out_absent; eauto|reflexivity].
+        + exists None. split; [|intros _; left; auto].
+          unfold field_out. rewrite (jfind_all_exact (field_keys fs)) by assumption. rewrite G.
+          cbn [dec_member]. destruct (nullable_null _ Hnl) as [Hd Hz]. rewrite Hd. cbn [bind].
+          unfold enc_field. rewrite Ho, Hz. reflexivity.
+        + destruct (is_time (fd_kind f)) eqn:Et.
+          * destruct (fd_kind f) eqn:Ek; try discriminate Et.
+            inversion Hsh as [| | | | |s t s' Hp Hfm| | | | | |]; subst.
+            exists (Some (JStr s')). split.
+            -- unfold field_out. rewrite (jfind_all_exact (field_keys fs)) by assumption. rewrite G.
+               rewrite Ek. cbn [dec_member decode_val]. rewrite Hp. cbn [bind].
+               unfold enc_field. rewrite Ek. cbn [is_empty]. rewrite andb_false_r. cbn [encode_val]. rewrite Hfm. reflexivity.
+            -- intros _. right. right. split; [reflexivity|]. exists s, s', t. repeat split; try assumption.
+               eapply time_rt; eauto.
+          * rewrite orb_false_r in Hkinds.
+            destruct (field_out_present (field_keys fs) m f v) as (a & Ha & Hna); eauto.
+            { apply plain_val_ok; assumption. }
+            exists (Some a). split; [assumption|]. intros _. right. left. split; [reflexivity|]. eauto. }
+    destruct (fields_loop m fs) as (vs & em & Hd & He & Hn).
+    { eapply Forall_impl; [|exact Hall]. intros f (oa & H1 & _). eauto. }
+    (* the original normalises *)
+    assert (Hex : exists nm, norm_members renum m = Some nm).
+    { assert (Hvals : forall k v, jget k m = Some v -> exists a, norm renum v = Some a).
+      { intros k v G. assert (In k (field_keys fs)) as Hk by (apply Hincl; apply jget_some_in in G; apply (in_map fst) in G; exact G).
+        apply in_map_iff in Hk. destruct Hk as (f & Hfk' & Hin). rewrite Forall_forall in Hall. destruct (Hall f Hin) as (oa & _ & H2).
+        destruct (str_mem (fd_key f) D) eqn:Ed.
+        - apply (Hdel k v); [|assumption]. apply str_mem_in. rewrite <- Hfk'. assumption.
+        - specialize (H2 eq_refl). rewrite Hfk' in H2. rewrite G in H2.
+          destruct H2 as [(-> & _)|[(_ & a & _ & Ha)|(_ & s & s' & t & -> & _)]]; [exists JNull; reflexivity|eauto|exists (JStr s); reflexivity]. }
+      clear - Hvals Hnd. induction m as [|[k v] t IHm]; [exists []; reflexivity|].
+      inversion Hnd as [|? ? Hn Hnd']; subst. simpl.
+      destruct (Hvals k v) as (a & Ha); [simpl; rewrite String.eqb_refl; reflexivity|]. rewrite Ha.
+      destruct IHm as (nt & Hnt); [assumption| |rewrite Hnt; eauto].
+      intros k' v' G. apply (Hvals k' v'). simpl. destruct (String.eqb k k') eqn:E; [|assumption].
+      apply String.eqb_eq in E. subst. exfalso. apply Hn. apply jget_some_in in G. apply (in_map fst) in G. exact G. }
+    destruct Hex as (nm & Hnm).
+    exists vs, (msort (jremove_all D (emit m fs))), (msort (jremove_all D nm)).
+    split. { unfold decode_struct. rewrite decode_fields_eq. assumption. }
+    split. { unfold mdoc. rewrite encode_struct_eq, He. cbn [bind as_map of_option]. rewrite Hn. reflexivity. }
+    split. { unfold reference_doc. cbn [as_map]. rewrite Hnm. reflexivity. }
+    intros k.
+    assert (Hd1 : jget k (msort (jremove_all D (emit m fs))) = if str_mem k D then None else jget k (emit m fs)).
+    { rewrite jget_msort, jremove_all_filter, jget_last_nodup, jget_filter_keep; [reflexivity|].
+      apply nodup_filter_keys, nodup_emit, NDfk. }
+    assert (Hd2 : jget k (msort (jremove_all D nm)) = if str_mem k D then None else jget k nm).
+    { rewrite jget_msort, jremove_all_filter, jget_last_nodup, jget_filter_keep; [reflexivity|].
+      apply nodup_filter_keys. rewrite (keys_norm_members _ _ _ Hnm). assumption. }
+    unfold jget_nn. rewrite Hd1, Hd2. rewrite (jget_norm_members _ _ _ Hnm).
+    destruct (str_mem k D) eqn:EkD.
+    { destruct (time_key fs k); [left; auto|reflexivity]. }
+    destruct (in_dec string_dec k (field_keys fs)) as [Hk|Hk].
+    - apply in_map_iff in Hk. destruct Hk as (f & <- & Hin).
+      assert (Htk : time_key fs (fd_key f) = is_time (fd_kind f)).
+      { unfold time_key. destruct (is_time (fd_kind f)) eqn:Et.
+        - apply existsb_exists. exists f. rewrite String.eqb_refl, Et. auto.
+        - destruct (existsb _ fs) eqn:Ex; [|reflexivity]. apply existsb_exists in Ex.
+          destruct Ex as (f' & Hin' & Hx). apply andb_true_iff in Hx. destruct Hx as [Hx1 Hx2].
+          apply String.eqb_eq in Hx1. assert (f' = f) by (eapply (NoDup_map_inj fd_key); eauto). subst. congruence. }
+      rewrite Htk. rewrite jget_emit by assumption.
+      rewrite Forall_forall in Hall. destruct (Hall f Hin) as (oa & H1 & H2). rewrite H1. specialize (H2 EkD).
+      destruct (jget (fd_key f) m) as [v|].
+      + destruct H2 as [(-> & ->)|[(Et & a & -> & Ha)|(Et & s & s' & t & -> & -> & Hp & Hp')]].
+        * simpl. destruct (is_time (fd_kind f)); [left; auto|reflexivity].
+        * rewrite Et, Ha. reflexivity.
+        * rewrite Et. simpl. right. exists s, s', t. auto.
+      + subst oa. destruct (is_time (fd_kind f)); [left; auto|reflexivity].
+    - assert (Htk : time_key fs k = false).
+      { unfold time_key. destruct (existsb _ fs) eqn:Ex; [|reflexivity]. apply existsb_exists in Ex.
+        destruct Ex as (f' & Hin' & Hx). apply andb_true_iff in Hx. destruct Hx as [Hx1 _].
+        apply String.eqb_eq in Hx1. exfalso. apply Hk. rewrite <- Hx1. apply in_map. assumption. }
+      rewrite Htk. rewrite jget_emit_notin by assumption.
+      rewrite jget_notin; [reflexivity|]. intros Hin. apply Hk, Hincl, Hin.
   Qed.
 End Lossless.
